@@ -104,7 +104,7 @@ def rule_emission(ctx: Ctx) -> None:
         iv, ov = [U(x) for x in lps[0].node.target.elts]
         for bp in lps[0].body:
             st = [(S(strip_v(e.recv)), S(e.value)) for e in bp.effects if e.kind == "store"]
-            ctx.check(st == [(f"rets[{iv}]", f"self.format2dict({ov},status,frame_num,transforms)")] and not bp.conds, "C19-emission", "format2df", "one-pair-per-item",
+            ctx.check(len(st) == 1 and re.match(rf"^\w+\[{re.escape(iv)}\]$", st[0][0]) is not None and st[0][1] == f"self.format2dict({ov},status,frame_num,transforms)" and not bp.conds, "C19-emission", "format2df", "one-pair-per-item",
                       f"per list element format2df records {st}; expected exactly rets[i] = self.format2dict(item, status, frame_num, transforms), unconditionally", fi=fd)
     # get_object_status walks the same four lists
     fs = ctx.func("evaluation.result.perception_frame_result.get_object_status")
@@ -551,6 +551,10 @@ def rule_selection(ctx: Ctx) -> None:
                 m = re.match(r"^\{'(\w+)':(\w+)\}$", S(e.args[0]))
                 if m:
                     ups[m.group(1)] = m.group(2)
+            elif e.kind == "store":
+                m = re.match(r"^kwargs\['(\w+)'\]$", strip_v(S(e.recv)))
+                if m:
+                    ups[m.group(1)] = strip_v(S(e.value))
         for prm in ("scene", "area"):
             if sel[prm] is None:
                 continue
@@ -570,7 +574,7 @@ def rule_selection(ctx: Ctx) -> None:
             if e.kind == "call" and e.name == "summarize_score" and S(e.recv) == "self":
                 kws = {k: S(v) for k, v in e.kwargs.items()}
                 sc = kws.get("scene", "")
-                ctx.check(kws.get("distance") == "distance" and kws.get("area") == "area" and (sc in ("None", "scene") or sc.startswith("kwargs") and "pop('scene')" in sc), "C19-selection", "PerceptionAnalyzer3D.analyze", "score-selection",
+                ctx.check(kws.get("distance") == "distance" and kws.get("area") == "area" and (sc in ("None", "scene") or sc.startswith("kwargs") and "pop('scene'" in sc), "C19-selection", "PerceptionAnalyzer3D.analyze", "score-selection",
                           f"the metric scores are summarised for {kws}; expected the same scene / distance / area selection", fi=fi)
         for e in p.effects:
             if e.kind == "call" and e.name in ("summarize_ratio", "summarize_error", "get_confusion_matrix") and S(e.recv) == "self":
